@@ -316,7 +316,9 @@ macro_rules! filter_case {
         let name: &str = $name;
         let b_bits: usize = $bits;
         let fp: bool = $fp;
-        if r.ctx.case(|| format!("VBuilder::try_build_filter<{name}> n={n} bits={b_bits} cfg={} count_false_positives={fp}", cfg.describe())) {
+        if mwhc_known_hang(name, n) {
+            // known finding (non-terminating MWHC build over very few keys), see hang_probes()
+        } else if r.ctx.case(|| format!("VBuilder::try_build_filter<{name}> n={n} bits={b_bits} cfg={} count_false_positives={fp}", cfg.describe())) {
             if n >= 2 {
                 r.ctx.nontrivial();
             }
